@@ -85,7 +85,7 @@ def runCtl (variant endS fuelS : String) (body : List String) : List String :=
   let endT := endT? endS
   let fuel := natD fuelS
   let cmds := body.filterMap (fun l => parseCmd (toks l))
-  let z0 : Sess PS := { s := s0, pre := p.pre.map (·.1) }
+  let z0 : Sess PS := { s := s0, pre := p.pre.map (·.1), start := p.start }
   let (z, outs, marks) := cmds.foldl (fun (acc : Sess PS × List String × List Nat) x =>
       let z := acc.1
       match x with
